@@ -9,7 +9,7 @@ use crate::baseline::Baseline;
 use crate::cache::{Cache, compute_config_hash};
 use crate::checker::CheckResult;
 use crate::cli::{CheckArgs, Cli};
-use crate::config::{FetchPolicy, collect_expired_rules};
+use crate::config::{FetchPolicy, collect_expired_rules, validate_config_semantics};
 use crate::output::{
     OutputFormat, ProjectStatistics, ScanProgress, StatsFormatter, StatsJsonFormatter,
 };
@@ -146,8 +146,10 @@ pub fn run_check_impl(args: &CheckArgs, cli: &Cli) -> crate::Result<i32> {
         print_preset_info(preset_name);
     }
 
-    // 2. Apply CLI argument overrides
+    // 2. Apply CLI argument overrides; the overridden values must pass the same
+    // semantic validation as values read from the file
     apply_cli_overrides(&mut config, args);
+    validate_config_semantics(&config)?;
 
     // 2.1 Check for expired rules and emit warnings
     let expired_rules = collect_expired_rules(&config);
